@@ -868,6 +868,9 @@ pub fn verify(t: &Tables, trace: &[Rec], sent: &[Cmd], outcome: &Outcome) -> Rep
         }
         // (implementation mirror) a map handler at top level that no command explains may be the stale event of
         // a dropped modification, consumed by a remote's removal of an absent key
+        // Which of several removals of absent keys fired the stale event cannot be told from the trace (they are all
+        // invisible otherwise), so the substitute only has to exist; it is not consumed.
+        let mut stale_substitute = false;
         let trig = match &trig {
             Trigger::Ext(Cmd::Upd { lane, .. } | Cmd::Rem { lane, .. } | Cmd::Clr { lane }) if r.stale_matches(first) => {
                 let lane = *lane;
@@ -876,7 +879,10 @@ pub fn verify(t: &Tables, trace: &[Rec], sent: &[Cmd], outcome: &Outcome) -> Rep
                     _ => None,
                 });
                 match absent {
-                    Some(c) => Trigger::Ext(c),
+                    Some(c) => {
+                        stale_substitute = true;
+                        Trigger::Ext(c)
+                    }
                     None => trig,
                 }
             }
@@ -915,7 +921,9 @@ pub fn verify(t: &Tables, trace: &[Rec], sent: &[Cmd], outcome: &Outcome) -> Rep
                     broken = true;
                     break;
                 }
-                *n -= 1;
+                if !stale_substitute {
+                    *n -= 1;
+                }
                 if matches!(cmd, Cmd::Run(_)) {
                     rep.run_blocks += 1;
                 } else {
